@@ -8,6 +8,7 @@ CONSTANTS
   MaxPath = 3
   MaxHist = 3
   MaxSeq = 3
+INVARIANT KeysAreCaseSensitive
 INVARIANT ColourSwitchIsLocal
 INVARIANT GetterHistory
 INVARIANT HistoryIndependent
